@@ -55,3 +55,26 @@ def discharge_lemmas(lemmas, timeout_s):
         for (name, hyps, goal) in l.builder():
             obs.append(LemmaOb("lemma:%s:%s" % (l.name, name), hyps, goal))
     return solve.discharge(obs, timeout_s=timeout_s)
+
+
+LEAN_LEMMAS = [dict(name='lean:admm_kkt', props=['C02'], file='lemmas/admm_kkt.lean',
+                    what="ADMM step equations (X-step prox equation, Z-step subgradient, U-step) imply the approximate-KKT identity "
+                         "S - X^-1 + G = -rho (Z - Z_old) and G = rho U, in an arbitrary real module")]
+
+
+def run_lean(entry, verif_root, timeout_s=900):
+    """Lean 4 + Mathlib check of a code-independent lemma.  proved iff lean exits 0 with no error/sorry."""
+    import os
+    import subprocess
+    path = os.path.join(verif_root, entry['file'])
+    src = open(path).read()
+    t0 = time.time()
+    if 'sorry' in src or 'admit' in src:
+        return dict(name=entry['name'], verdict=solve.UNKNOWN, time=0.0, backend='lean', info={'reason': 'sorry/admit in source'})
+    try:
+        p = subprocess.run(['lake', 'env', 'lean', path], cwd='/opt/veriftools/mathlib4', capture_output=True, text=True, timeout=timeout_s)
+        ok = p.returncode == 0 and 'error' not in p.stdout and 'error' not in p.stderr
+        return dict(name=entry['name'], verdict=solve.PROVED if ok else solve.UNKNOWN, time=time.time() - t0, backend='lean4+mathlib',
+                    info=None if ok else {'reason': (p.stdout + p.stderr)[-600:]})
+    except Exception as e:
+        return dict(name=entry['name'], verdict=solve.UNKNOWN, time=time.time() - t0, backend='lean4+mathlib', info={'reason': repr(e)})
